@@ -89,8 +89,8 @@ class SV(ASTNode):
     nc: int = field(default=0, compare=False)
 
 
-@dataclass(frozen=True)
-class SL(ASTNode):
+@dataclass(frozen=True, slots=True)
+class SL(ASTNode):  # a slotted subclass (the dataclass machinery creates such a class twice)
     v: int = 0
 
 
@@ -100,6 +100,7 @@ class SP(ASTNode):
     items: tuple[ASTNode, ...] = ()
 
 
+CLASSES = {"SV": SV, "SL": SL, "SP": SP}
 U = Universe("c04", [C("SL", SL, [F("v", PROP, alphabet=(0, 1))]), C("SP", SP, [F("one", OPT), F("items", VAR, maxlen=3)])])
 
 STRINGS = ["", "a", "ä€𝄞", "\x00", "a\x00b", "\x85", "﻿", "﻿a", "'", '"', "\\", "\\n", "yes", "no", "null", "~", "true", "True", "1", "1e3", "0x10", "0o7",
@@ -220,8 +221,8 @@ def compare(rec, case, got_root, exp, alive_objs, fresh=False):
             bad("shape", f"position {path} missing in the result")
             return
         got_nodes.append(g)
-        if g is None or type(g).__name__ != e["cls"]:
-            bad("class", f"position {path}: {type(g).__name__}, expected {e['cls']}")
+        if g is None or type(g) is not CLASSES.get(e["cls"]):
+            bad("class", f"position {path}: {type(g).__module__}.{type(g).__name__} (object {id(type(g))}), expected the class {e['cls']} itself")
             return
         if k in alive_objs:
             if g is not alive_objs[k]:
@@ -404,7 +405,7 @@ def fresh_main(inp, outp):
     """Runs in a brand-new interpreter: nothing is alive, the source registry is empty until the serialized sources are loaded."""
     data = json.load(open(inp))
     rec = Rec({})
-    cls = {"SV": SV, "SL": SL, "SP": SP}
+    cls = CLASSES
     loaded = False
     for item in data["batch"]:
         NODE_REGISTRY.clear()
